@@ -88,7 +88,7 @@ type Observer struct {
 	Disclosed map[string]int
 	// Versions, when set, gives per party the allowed versions as bits (1 = v2, 2 = v3)
 	Versions []int
-	skCache map[string]*SessionKeys
+	skCache  map[string]*SessionKeys
 	// SendsWS tells per party whether its policy appends whitespace tags; only then
 	// is a message containing the tag base judged as a tagged message
 	SendsWS []bool
